@@ -960,7 +960,8 @@ class Gen:
     def ext_forms(self, ctx):
         """external calls in the syntactic positions the look-ahead logic cares about"""
         e = lambda: self.call(self.pick(ctx.scope.exts), ctx, 2)
-        k = self.pick(["stmt", "inline", "string", "cond", "before_end", "after_start", "glue", "glue2", "assign"])
+        k = self.pick(["stmt", "inline", "string", "cond", "before_end", "after_start", "glue", "glue2", "assign",
+                       "tag_start", "tag_tail"])
         w = lambda: " ".join(self.words(1, 3))
         if k == "stmt":
             c = e()
@@ -980,6 +981,11 @@ class Gen:
             return [Text([w(), "{" + e() + "}"]), Text([w() + "."])]
         if k == "after_start":
             return [Text([w() + "."]), Text(["{" + e() + "}", self.word(True), self.word(True) + "."])]
+        if k == "tag_start" and ctx.kind != "function":
+            # a tag on its own line that begins with the call, right after a finished line
+            return [Text([w() + "."]), TagLine("{" + e() + "}" + self.word()), Text([w() + "."])]
+        if k == "tag_tail" and ctx.kind != "function":
+            return [Text([w()], tags=[self.word() + " {" + e() + "}"]), Text([w() + "."])]
         if k == "glue":
             return [Text([w(), "<>", "{" + e() + "}", "<>", self.word(True)])]
         if k == "glue2":
